@@ -39,8 +39,25 @@ func genPayload66(r *Rng) ([]byte, string) {
 	key, val := r.Bytes(r.Intn(40)), r.Bytes(r.Intn(70))
 	enc := abiEncode2(key, val)
 	switch k := r.Intn(100); {
-	case k < 35:
+	case k < 27:
 		return enc, "wellformed"
+	case k < 35:
+		// a valid encoding whose byte strings are not padded to whole words (the offsets say where things are; nothing requires
+		// alignment), of every length modulo 32 - in particular lengths that look like "selector + arguments"
+		if r.Bool() {
+			key = r.Bytes([]int{4, 4, 36, 1, 31}[r.Intn(5)])
+			val = r.Bytes([]int{0, 0, 32, 5}[r.Intn(4)])
+		}
+		out := append([]byte{}, word32(uint256.NewInt(0x40))...)
+		out = append(out, word32(uint256.NewInt(uint64(0x40+32+len(key))))...)
+		out = append(out, word32(uint256.NewInt(uint64(len(key))))...)
+		out = append(out, key...)
+		out = append(out, word32(uint256.NewInt(uint64(len(val))))...)
+		out = append(out, val...)
+		return out, "unpadded"
+	case k < 40:
+		// a few stray bytes in front of a canonical encoding (a function selector, say): the words then read differently
+		return append(r.Bytes([]int{4, 4, 4, 1, 8, 32}[r.Intn(6)]), enc...), "prefixed"
 	case k < 50: // truncation at a random length
 		return enc[:r.Intn(len(enc)+1)], "truncated"
 	case k < 75: // a head or length word replaced by a boundary value
